@@ -189,6 +189,11 @@ def pitfall_sites(ctx):
   pitfalls.apply(ctx, 'PITFALL', scope, ['neg-zero-slice', 'previous-wraps'], {
       'neg-zero-slice': 'the events that remain are not the prefix / suffix the list model keeps, so len, end_step and indexing disagree with it',
       'previous-wraps': 'the first event is paired with the last one'})
+  # the methods whose job is to add steps: nothing that is already in the sequence may be lost on the way
+  growers = [fi for fi in scope if fi.name in ('_append_steps', 'append')]
+  ctx.require(len(growers) >= 2, 'the step-appending methods (_append_steps, append) were not found')
+  pitfalls.apply(ctx, 'PITFALL', growers, ['dropped-pop'], {
+      'dropped-pop': 'set_length(n) with n larger than the present length pads the sequence: every event it holds must still be there afterwards'})
 
 
 def _method_closure(ctx, ci, m, depth=3):
